@@ -82,9 +82,28 @@ func checkC04(s *Scenario) (fail *Failure, obs *totObs) {
 		// ReferenceMatcher configurations: nil (the zero InlineParser), and
 		// caller-supplied matchers that answer always / never / by hash
 		var alt [][]*commonmark.RootBlock
-		for mi, m := range []commonmark.ReferenceMatcher{nil, matcherFunc(func(string) bool { return true }), matcherFunc(func(l string) bool { return hashString(l)%2 == 0 })} {
-			if (len(doc)+mi)%3 != 0 && !tierThorough {
-				continue // one of the three per document in the quick tier
+		// ... and a matcher that RE-ENTERS the library: while answering it parses
+		// another small document through the very same InlineParser (a matcher
+		// that loads definitions lazily would)
+		var reentrantIP *commonmark.InlineParser
+		reentered := 0
+		reentrant := matcherFunc(func(l string) bool {
+			if reentrantIP != nil && reentered < 6 {
+				reentered++
+				bp := commonmark.NewBlockParser(bytes.NewReader([]byte("[" + l + "] *nested* [x][y] `c`\n\n> [q]: /u\n")))
+				for {
+					b, err := bp.NextBlock()
+					if err != nil {
+						break
+					}
+					reentrantIP.Rewrite(b)
+				}
+			}
+			return hashString(l)%3 != 0
+		})
+		for mi, m := range []commonmark.ReferenceMatcher{nil, matcherFunc(func(string) bool { return true }), matcherFunc(func(l string) bool { return hashString(l)%2 == 0 }), reentrant} {
+			if (len(doc)+mi)%4 != 0 && !tierThorough {
+				continue // one of the four per document in the quick tier
 			}
 			begin("rewrite-matcher")
 			var bs []*commonmark.RootBlock
@@ -97,6 +116,9 @@ func checkC04(s *Scenario) (fail *Failure, obs *totObs) {
 				bs = append(bs, b)
 			}
 			ip := &commonmark.InlineParser{ReferenceMatcher: m}
+			if mi == 3 {
+				reentrantIP = ip
+			}
 			for _, b := range bs {
 				ip.Rewrite(b)
 			}
